@@ -71,11 +71,27 @@ fn real_main() -> i32 {
             println!("{} of {} rounds (each {} solve_all calls) saw a stray stop_query()", leaks, rounds, n);
             0
         }
+        "ubcorpus" => {
+            // sverif ubcorpus <out file> <seed> <n without cut> <n with cut>
+            let seed: u64 = args.get(3).and_then(|s| s.parse().ok()).unwrap_or(0);
+            let n0: usize = args.get(4).and_then(|s| s.parse().ok()).unwrap_or(10);
+            let n1: usize = args.get(5).and_then(|s| s.parse().ok()).unwrap_or(10);
+            let mut lines = vec![];
+            for e in sverif::ub::make_corpus(seed, n0, false) { lines.push(e.to_string()); }
+            for e in sverif::ub::make_corpus(seed.wrapping_add(1), n1, true) { lines.push(e.to_string()); }
+            if std::fs::write(&args[2], lines.join("\n") + "\n").is_err() { eprintln!("cannot write {}", args[2]); return 3; }
+            println!("{}", lines.len());
+            0
+        }
+        "ubrun" => sverif::ub::replay_file(&args[2]),
         _ => { eprintln!("unknown command"); 3 }
     }
 }
 
 fn main() {
+    // under Miri (and for ubrun generally) stay on the main thread: small cases, no deep recursion
+    let a: Vec<String> = std::env::args().collect();
+    if a.get(1).map_or(false, |c| c == "ubrun") { std::process::exit(real_main()); }
     // deep recursion in engine and reference: run on a thread with a very large stack
     let h = std::thread::Builder::new().stack_size(2usize << 30).spawn(real_main).expect("spawn");
     let code = h.join().unwrap_or(3);
